@@ -379,6 +379,9 @@ func (e *env) check(c *tcase, o outcome) (fs []finding, firstReason string, firs
 			if strings.HasPrefix(kcl, "addr:") { // part (L): answers derived from the rule entries
 				kcl = "derived-address"
 			}
+			if strings.HasPrefix(kcl, "seq:") { // part (A): every sequence over the address pool; the key names its structure
+				kcl = answerShape(kcl[len("seq:"):])
+			}
 			key := fmt.Sprintf("sent-to-denied:%s:%s:%s:%s", pos, reason, hostGroup(h), kcl)
 			if reason == reasonDenyMapped {
 				key = "deny-rule-in-ipv4-mapped-notation-not-applied"
@@ -869,6 +872,7 @@ func initResolverAnswers(r *runner.Run) {
 		all = append(all, &resThorough[i])
 	}
 	all = append(all, listResolverAnswers()...)
+	all = append(all, answerResolverAnswers()...)
 	for _, rs := range all {
 		resByClass[rs.class] = rs
 		rt := &resRT{}
@@ -1102,6 +1106,12 @@ func policies(dom *domain) []polSpec {
 
 func TestCheck(t *testing.T) {
 	r := runner.Start("C16", "exploration")
+	if part, child := runner.IsShard(); child {
+		if part == concPart { // part (S): one shard of the schedule explorations (conc_test.go)
+			concChild(t, r.Thorough())
+		}
+		return
+	}
 	deadline := r.Deadline(60*time.Second, 10*time.Minute)
 	initResolverAnswers(r)
 	selfTest(r)
@@ -1181,6 +1191,24 @@ func TestCheck(t *testing.T) {
 		r.NotExhaustive(fmt.Sprintf("wall budget reached: %d of %d rule-list policies compiled", lbooted, len(lpols)))
 	}
 	r.Set("wall_list_boots_s", time.Since(tL).Seconds())
+	// part (A): resolver answer sets with several addresses (answers_test.go); compiled like the base policies
+	apols := answerPolicies()
+	areals := make([]dispatcher.EgressPolicy, len(apols))
+	for i, p := range apols {
+		real, _, err := realPolicy(p, "https://name.example/hook")
+		if err != nil {
+			r.Infra("answer policy %s does not boot: %v", p.label(), err)
+			r.Finish()
+		}
+		if real.HTTPSOnly != p.HTTPSOnly || real.Redirects != p.Redirects || real.DNSRebindProtection != p.Rebind || len(real.Allow) != len(p.Allow) || len(real.Deny) != len(p.Deny) {
+			const key = "config:egress-policy-not-carried-to-dispatcher"
+			rep.seen[key]++
+			if rep.seen[key] == 1 {
+				r.Violation(key, fmt.Sprintf("Hookaidofile egress block %s reached the dispatcher as %+v", p.label(), real), map[string]any{"policy": p}, nil)
+			}
+		}
+		areals[i] = real
+	}
 	jobs := make(chan int)
 	stats := make([]*wstats, workers)
 	var done, incomplete int64
@@ -1195,6 +1223,8 @@ func TestCheck(t *testing.T) {
 				var ok bool
 				if i < len(pols) {
 					ok = time.Now().Before(deadline) && rep.enumeratePolicy(i, pols[i], reals[i], dom, st, deadline)
+				} else if k := i - len(pols) - len(lpols); k >= 0 {
+					ok = time.Now().Before(deadline) && rep.enumerateAnswerPolicy(i, apols[k], areals[k], r.Thorough(), st, deadline)
 				} else {
 					ok = time.Now().Before(deadline) && rep.enumerateListPolicy(i, lpols[i-len(pols)], lreals[i-len(pols)], st, deadline)
 				}
@@ -1213,6 +1243,9 @@ func TestCheck(t *testing.T) {
 	}
 	for i := 0; i < lbooted; i++ {
 		jobs <- len(pols) + i
+	}
+	for i := range apols {
+		jobs <- len(pols) + len(lpols) + i
 	}
 	close(jobs)
 	wg.Wait()
@@ -1247,13 +1280,16 @@ func TestCheck(t *testing.T) {
 	}
 	rep.flush()
 	if incomplete > 0 {
-		r.NotExhaustive(fmt.Sprintf("wall budget reached: %d of %d policies enumerated completely", done, len(pols)+lbooted))
+		r.NotExhaustive(fmt.Sprintf("wall budget reached: %d of %d policies enumerated completely", done, len(pols)+lbooted+len(apols)))
 	}
 	rep.mu.Lock()
 	if len(rep.seen) > 0 {
 		r.Set("violation_classes", rep.seen)
 	}
 	rep.mu.Unlock()
+
+	// part (S): overlapping deliveries on one deliverer under the controlled scheduler (conc_test.go); child processes
+	concPartRun(r, t)
 
 	r.Set("policies", len(pols))
 	r.Set("list_policies_total", len(lpols))
@@ -1301,6 +1337,10 @@ func (rep *reporter) replayFile(t *testing.T, path string) {
 		Kind string `json:"kind"`
 	}
 	_ = json.Unmarshal(f.Replay, &kind)
+	if kind.Kind == "concurrent-deliveries" {
+		concReplay(r, t, f.Replay)
+		return
+	}
 	if kind.Kind == "dispatcher-chain" {
 		var dc DispCase
 		if err := json.Unmarshal(f.Replay, &dc); err != nil {
